@@ -79,4 +79,17 @@ func init() {
 		Rule{Name: "E6", Run: runE6For("Reference.ReferenceOrigins", "Reference.ReferenceTargets", "ast.DecodeBody")})
 }
 
+// Module-wide loop / comparison discipline and the ownership engine are necessary conditions
+// of every per-query property that is decided by rows: they are appended to those sets.
+func init() {
+	for _, pid := range []string{"C07", "C08", "C09", "C10", "C11", "C12", "C13", "C14", "C15", "C16", "C19", "C20"} {
+		propRules[pid] = append(propRules[pid],
+			Rule{Name: "E15.self", Run: runSelfCompare}, Rule{Name: "E15.collect", Run: runCollectAll}, Rule{Name: "E15.parallel", Run: runParallelIndex},
+			Rule{Name: "E15.stale", Run: runStaleElementState}, Rule{Name: "E15.siblings", Run: runSiblingChildCons})
+	}
+	for _, pid := range []string{"C07", "C08", "C10", "C11", "C12", "C14", "C15"} {
+		propRules[pid] = append(propRules[pid], Rule{Name: "E3.shared", Run: runAppendAlias})
+	}
+}
+
 var childExceptions = map[string]string{}
